@@ -49,7 +49,22 @@ inline bool check_civil(const zp::Zone& z, const zp::Handle& h, i128 csecs, std:
   // legacy files (type 0 DST and referenced): the type before the first transition is outside the property, and so
   // is every civil time whose reading can involve it (offsets span < 48 h)
   if (m.pre_first_unspecified && !m.f.trans.empty() && csecs - 2 * 86400 <= (i128)m.f.trans.front().t) {
-    EV->unspec("before_first_transition_with_DST_type0_referenced"); if (cls) *cls = "unspecified"; return true;
+    // the model is silent here, but the two directions of cctz itself must still agree: an instant returned for a
+    // civil second that exists displays that civil second, and a skipped one is displayed by no instant around it
+    auto shows = [&](int64_t t) { return h.lookup(t).cs == cs; };
+    const int64_t p = zp::unix_of(cl.pre), tr = zp::unix_of(cl.trans), q = zp::unix_of(cl.post);
+    bool ok = true;
+    const bool saturated = p == INT64_MIN || p == INT64_MAX || tr == INT64_MIN || tr == INT64_MAX || q == INT64_MIN || q == INT64_MAX;
+    if (saturated) ok = true;  // answers clamped to the time_point range display other civil seconds, legitimately
+    else if (cl.kind == cctz::time_zone::civil_lookup::UNIQUE) ok = shows(p) && p == tr && p == q;
+    else if (cl.kind == cctz::time_zone::civil_lookup::REPEATED) ok = shows(p) && shows(q) && p < q;
+    else ok = !shows(p) && !shows(q) && (tr == INT64_MIN || (h.lookup(tr - 1).cs < cs && cs < h.lookup(tr).cs));
+    if (!ok) {
+      *why = "lookup(" + refcal::str(c) + ") = kind " + std::to_string((int)cl.kind) + " pre=" + vf::i64_str(p) + " trans=" + vf::i64_str(tr) + " post=" + vf::i64_str(q) +
+             " disagrees with lookup(time_point) of the same zone (first transition of a file whose type 0 is DST and referenced)";
+      return false;
+    }
+    EV->unspec("before_first_transition_with_DST_type0_referenced(relations_only)"); if (cls) *cls = "unspecified"; return true;
   }
   const int64_t epre = refcal::clamp64(a.pre), etr = refcal::clamp64(a.trans), epost = refcal::clamp64(a.post);
   const int64_t gpre = zp::unix_of(cl.pre), gtr = zp::unix_of(cl.trans), gpost = zp::unix_of(cl.post);
